@@ -38,9 +38,14 @@ def main():
     t0 = time.time()
     try:
         mod = _load_module(path)
-    except BaseException as e:  # harness out of date / import failure: inconclusive, never a violation
+    except BaseException as e:  # harness out of date / import failure: inconclusive -- unless the code under test failed to BUILD
+        from vf.replay import build_failure
+        bf = build_failure(e) if isinstance(e, Exception) else None
         for fn_name, _ in todo:
-            emit({"fn": fn_name, "status": "HARNESS_ERROR", "detail": "import: " + "".join(traceback.format_exception_only(type(e), e)).strip()[-600:]})
+            if bf:
+                emit({"fn": fn_name, "status": "BUILD_FAILED", "detail": bf})
+            else:
+                emit({"fn": fn_name, "status": "HARNESS_ERROR", "detail": "import: " + "".join(traceback.format_exception_only(type(e), e)).strip()[-600:]})
         return
     import_s = time.time() - t0
 
